@@ -234,9 +234,34 @@ def gen_history(rng, tier, focus=None):
                 h.append("invert %d" % v)
         elif op == "copy":
             v = pick_view()
-            v2 = s.fresh_v()
-            h.append("copy %d %d" % (v, v2))
-            s.views[v2] = dict(s.views[v])
+            tgt = None
+            if s.views[v]["m"] is None and rng.random() < 0.45:
+                # copy ASSIGNMENT into a live owned filter (the harness assigns when the target id exists), preferably one of the same
+                # configuration (an implementation may then reuse the allocation) and right after plain updates of the source (its cached
+                # bit count is stale then: the assignment must not make the stale value the target's exact count)
+                cv = s.views[v]["cfg"]
+                c = [u for u, d in s.views.items() if u != v and d["m"] is None and not d["ro"]]
+                same = [u for u in c if (round64(s.views[u]["cfg"][0]), s.views[u]["cfg"][1], s.views[u]["cfg"][2]) == (round64(cv[0]), cv[1], cv[2])]
+                if not same and rng.random() < 0.7:
+                    u = s.fresh_v()
+                    h.append("new %d %d %d %d" % (u, cv[0], cv[1], cv[2]))
+                    s.views[u] = dict(cfg=cv, m=None, ro=False)
+                    same = [u]
+                tgt = rng.choice(same) if same and rng.random() < 0.8 else (rng.choice(c) if c else None)
+            if tgt is not None:
+                if not s.views[v]["ro"]:
+                    for _ in range(rng.choice([0, 1, 3])):
+                        ty, lit = item()
+                        h.append("upd %d %s %s" % (v, ty, lit))
+                h.append("copy %d %d" % (v, tgt))
+                s.views[tgt] = dict(s.views[v])
+                ty, lit = item()
+                h.append("q %d %s %s" % (tgt, ty, lit))
+                h.append("bits %d" % tgt)
+            else:
+                v2 = s.fresh_v()
+                h.append("copy %d %d" % (v, v2))
+                s.views[v2] = dict(s.views[v])
         elif op == "ser":
             v = pick_view()
             m = s.fresh_b()
